@@ -261,7 +261,8 @@ func actorSpecs(tier string, core bool) []actorSpec {
 		},
 	}
 
-	if tier == "thorough" {
+	// the view of "/" is part of both tiers (Sub of the root is a code path of its own)
+	{
 		specs = append(specs, actorSpec{
 			name: "V0", kind: "rootview", dir: "/", users: users, umasks: umasks,
 			abs: append(append([]string{}, parentAbs...), "/..", "/../o/h"),
